@@ -1,36 +1,40 @@
-(* C17/Refuted.v -- full statements the faithful models violate (= the known findings), with
-   machine-checked witnesses. *)
+(* C17/Refuted.v -- regression facts about behaviour that was repaired, and statements that need
+   their hypothesis.
+
+   F-C17-1 (refreshDebouncer.stop blocked for ever when the flusher's select took a queued refreshNow
+   token or timer value instead of quit) is fixed: stop() only closes quit; the model follows the
+   repaired code and C17_refresh_stop_returns / C17_refresh_flusher_exits hold without hypothesis.
+   The pre-fix transition system is not kept. *)
 From GocqlV Require Import Lib.Base Gen.Consts C17.Model C17.Spec C17.Proofs1 C17.Proofs5.
 
-(* F-C17-1.  "refreshDebouncer.stop returns" without any hypothesis is false: a refresh is running,
-   a second one is requested (token queued), stop() sets stopped and blocks on quit, the refresh
-   returns, the flusher's select takes the token, sees stopped and exits.  stop() is then blocked for
-   good: in every continuation it is still blocked. *)
-Definition f1_schedule : list rlabel :=
-  [RRefreshNow; RFlWake SNow 0; RFlLock;      (* a refresh is running *)
-   RRefreshNow;                               (* another one is requested: token queued *)
-   RStopCall 0; RStopLock 0;                  (* stop(): stopped = true, blocked in the send on quit *)
-   RFlDone;                                   (* the running refresh returns *)
-   RFlWake SNow 0; RFlLock].                  (* select takes the token; stopped: the flusher returns *)
+(* F-C17-2 (fixed): before the repair hostConnPool.connect appended the connection it held without
+   looking at conn.Closed().  [connect_add_prefix] is that old critical section.  On the schedule
+   below (connection 0 fails while connect holds it, its error callback finds nothing to remove) the
+   old code pooled a dead connection; the repaired step of the model does not. *)
+Definition connect_add_prefix (s : pool) (k : nat) : option pool :=
+  match alookup k (p_tasks s) with
+  | Some (t, THave c) =>
+      if p_closed s
+      then Some (mkPool (p_size s) (p_conns s) (p_closed s) (p_filling s) (notify t true (p_threads s))
+                   (aremove k (p_tasks s)) (p_closing s) (remn c (p_open s)) (p_dead s) (p_next_conn s) (p_next_task s))
+      else Some (mkPool (p_size s) (p_conns s ++ [c]) (p_closed s) (p_filling s) (notify t true (p_threads s))
+                   (aremove k (p_tasks s)) (p_closing s) (p_open s) (p_dead s) (p_next_conn s) (p_next_task s))
+  | _ => None
+  end.
 
-Theorem refresh_stop_returns_refuted :
-  exists ls s t, rrun rdeb_init ls = Some s /\ r_stop_stuck s t
-    /\ (forall ls' s', rrun s ls' = Some s' -> alookup t (r_stoppers s') = Some RSSend)
-    /\ ravoids request_races_stop rdeb_init ls = false.
-Proof.
-  exists f1_schedule. eexists. exists 0%nat. split; [vm_compute; reflexivity|].
-  assert (Hst : r_stop_stuck (mkR true false false false None RExited false [(0%nat, RSSend)] 1 1 1) 0).
-  { split; reflexivity. }
-  split; [exact Hst|]. split; [|vm_compute; reflexivity].
-  intros ls' s' H. exact (proj1 (stuck_forever _ _ _ _ Hst H)).
-Qed.
+Definition f2_schedule : list plabel :=
+  [FillStart 0; FillCheck 0; FillDecide 0;   (* fill: one connect, synchronously *)
+   DialOk 0;                                 (* connection 0 established, connect has not taken the lock yet *)
+   ConnDie 0; HErr 0 1].                     (* the server closes it; HandleError finds nothing to remove *)
 
-(* the same through the debounce timer instead of refreshNow *)
-Theorem refresh_stop_returns_refuted_timer :
-  exists ls s t, rrun rdeb_init ls = Some s /\ r_stop_stuck s t.
+Theorem closed_conn_pooled_before_fix :
+  exists s0 sold snew, prun (pool_init 1) f2_schedule = Some s0
+    /\ connect_add_prefix s0 0 = Some sold
+    /\ In 0%nat (p_conns sold) /\ ~ In 0%nat (p_open sold) /\ ~ In 0%nat (p_dead sold)
+    /\ pstep s0 (ConnectAdd 0) = Some snew /\ p_conns snew = [] /\ p_open snew = [].
 Proof.
-  exists [RRefreshNow; RFlWake SNow 0; RFlLock; RDebounce; RTimerFire; RStopCall 0; RStopLock 0; RFlDone; RFlWake STimer 0; RFlLock].
-  eexists. exists 0%nat. split; [vm_compute; reflexivity|]. split; reflexivity.
+  eexists. eexists. eexists. split; [vm_compute; reflexivity|]. split; [vm_compute; reflexivity|].
+  simpl. repeat split; try reflexivity; tauto.
 Qed.
 
 (* Model-level observation (not a registered finding: not reproduced through a session): a
@@ -38,7 +42,7 @@ Qed.
 Lemma exited_step s l s' : r_fl s = RExited -> rstep s l = Some s' ->
   r_fl s' = RExited /\ r_served s' = r_served s /\ r_cancelled s' = r_cancelled s.
 Proof.
-  intros Hfl H. destruct l as [| | |src t| | |t|t|t]; cbn [rstep] in H.
+  intros Hfl H. destruct l as [| | |src| | |t|t|t]; cbn [rstep] in H.
   - destruct (r_stopped s); injection H as <-; auto.
   - destruct (r_armed s); [|discriminate]. injection H as <-; auto.
   - destruct (r_bc s); injection H as <-; auto.
@@ -46,8 +50,8 @@ Proof.
   - rewrite Hfl in H. discriminate.
   - rewrite Hfl in H. discriminate.
   - destruct (memb t (akeys (r_stoppers s))); [discriminate|]. injection H as <-; auto.
-  - destruct (alookup t (r_stoppers s)) as [[| | |]|]; try discriminate. destruct (r_stopped s); injection H as <-; auto.
-  - destruct (alookup t (r_stoppers s)) as [[| | |]|]; try discriminate. injection H as <-; auto.
+  - destruct (alookup t (r_stoppers s)) as [[| |]|]; try discriminate. destruct (r_stopped s); injection H as <-; auto.
+  - destruct (alookup t (r_stoppers s)) as [[| |]|]; try discriminate. injection H as <-; auto.
 Qed.
 
 Lemma exited_forever ls : forall s s', r_fl s = RExited -> rrun s ls = Some s' ->
@@ -59,7 +63,7 @@ Proof.
 Qed.
 
 Definition late_request : list rlabel :=
-  [RStopCall 0; RStopLock 0; RFlWake SQuit 0; RFlLock; RStopClose 0; RRefreshNow].
+  [RStopCall 0; RStopLock 0; RStopClose 0; RFlWake SQuit; RFlLock; RRefreshNow].
 
 Theorem refresh_now_after_stop_never_served :
   exists s, rrun rdeb_init late_request = Some s /\ r_bc s = Some 1%nat /\ alookup 0%nat (r_stoppers s) = Some RSDone
@@ -67,30 +71,6 @@ Theorem refresh_now_after_stop_never_served :
 Proof.
   eexists. split; [vm_compute; reflexivity|]. split; [reflexivity|]. split; [reflexivity|].
   intros ls' s' H. apply exited_forever in H; [|reflexivity]. simpl in H. exact H.
-Qed.
-
-(* F-C17-2.  "a connection reported closed is removed from its pool" without the hypothesis is
-   false: connect holds connection 0; the connection fails and its error callback runs (nothing to
-   remove, no fill); connect appends it.  Nothing is pending any more, the pool is not closed, and
-   it holds a connection that is neither open nor about to be reported. *)
-Definition f2_schedule : list plabel :=
-  [FillStart 0; FillCheck 0; FillDecide 0;   (* fill: one connect, synchronously *)
-   DialOk 0;                                 (* connection 0 established, connect has not taken the lock yet *)
-   ConnDie 0; HErr 0 1;                      (* the server closes it; HandleError finds nothing to remove *)
-   ConnectAdd 0;                             (* connect appends the closed connection *)
-   FillAsync 0; FillStopped 0].              (* nothing left to connect: filling stops *)
-
-Theorem closed_conn_removed_refuted :
-  exists s c, prun (pool_init 1) f2_schedule = Some s
-    /\ In c (p_conns s) /\ ~ In c (p_open s) /\ ~ In c (p_dead s)
-    /\ p_quiescent s = true /\ p_closed s = false
-    /\ pavoids herr_in_hand (pool_init 1) f2_schedule = false
-    (* and a later fill does not replace it: the pool counts as full *)
-    /\ exists s', prun s [FillStart 5; FillCheck 5] = Some s' /\ p_conns s' = p_conns s /\ p_quiescent s' = true.
-Proof.
-  eexists. exists 0%nat. split; [vm_compute; reflexivity|]. simpl.
-  repeat split; try reflexivity; try tauto.
-  eexists. split; [vm_compute; reflexivity|]. split; reflexivity.
 Qed.
 
 (* eventDebouncer.stop() called twice: the second call panics (send on a closed channel).  The
